@@ -214,7 +214,8 @@ func TestVerifInstallMatrix(t *testing.T) {
 			continue
 		}
 		for _, flag := range []string{"default", "user", "path-abs", "path-rel", "path+user"} {
-			for _, prior := range []string{"absent", "older-install", "current-install-wrong-mode", "unrelated-files", "base-is-file"} {
+			for _, prior := range []string{"absent", "older-install", "current-install-wrong-mode", "unrelated-files", "base-is-file",
+				"interrupted-after-1", "interrupted-after-2", "interrupted-after-3"} {
 				home, cwd, custom := t.TempDir(), t.TempDir(), t.TempDir()
 				t.Setenv("HOME", home)
 				old, _ := os.Getwd()
@@ -254,6 +255,22 @@ func TestVerifInstallMatrix(t *testing.T) {
 						b, _ := fs.ReadFile(a.SkillsFS(), p)
 						_ = os.MkdirAll(filepath.Dir(filepath.Join(dest, rel)), 0o755)
 						return os.WriteFile(filepath.Join(dest, rel), b, 0o600)
+					})
+				case "interrupted-after-1", "interrupted-after-2", "interrupted-after-3":
+					// an earlier run died between two files: the first k files of the walk order are installed, the rest is missing
+					k := int(prior[len(prior)-1] - '0')
+					_ = fs.WalkDir(a.SkillsFS(), a.SkillsSrcDir(), func(p string, d fs.DirEntry, werr error) error {
+						if werr != nil || d.IsDir() {
+							return werr
+						}
+						if k == 0 {
+							return nil
+						}
+						k--
+						rel, _ := filepath.Rel(a.SkillsSrcDir(), p)
+						b, _ := fs.ReadFile(a.SkillsFS(), p)
+						_ = os.MkdirAll(filepath.Dir(filepath.Join(dest, rel)), 0o755)
+						return os.WriteFile(filepath.Join(dest, rel), b, 0o644)
 					})
 				case "unrelated-files":
 					_ = os.MkdirAll(base, 0o755)
@@ -315,9 +332,9 @@ func TestVerifInstallMatrix(t *testing.T) {
 			}
 		}
 	}
-	res.Evidence = map[string]any{"labelled": "bounded (exhaustive over agents x flags x 5 prior states) - executed, not counted as proof",
+	res.Evidence = map[string]any{"labelled": "bounded (exhaustive over agents x flags x 8 prior states) - executed, not counted as proof",
 		"evaluations": evals, "distinct_nontrivial": nontrivial, "exhaustive": true, "samples": samples,
-		"rule": "9 agents x {default, --user, --path absolute, --path relative, --path with --user} x {absent, older install, current content with mode 0600, unrelated files, base is a file}"}
+		"rule": "9 agents x {default, --user, --path absolute, --path relative, --path with --user} x {absent, older install, current content with mode 0600, unrelated files, base is a file, interrupted after 1 / 2 / 3 files}"}
 	res.emit()
 }
 
